@@ -1554,12 +1554,14 @@ class ReceivePackHandler(PackHandler):
                 try:
                     if sha == zero_sha:
                         try:
-                            self.repo.refs.remove_if_equals(ref, oldsha)
+                            if not self.repo.refs.remove_if_equals(ref, oldsha):
+                                ref_status = b"failed to delete"
                         except all_exceptions:
                             ref_status = b"failed to delete"
                     else:
                         try:
-                            self.repo.refs.set_if_equals(ref, oldsha, sha)
+                            if not self.repo.refs.set_if_equals(ref, oldsha, sha):
+                                ref_status = b"failed to update ref"
                         except all_exceptions:
                             ref_status = b"failed to write"
                 except KeyError:
@@ -1585,12 +1587,14 @@ class ReceivePackHandler(PackHandler):
                                 "delete-refs capability."
                             )
                         try:
-                            self.repo.refs.remove_if_equals(ref, oldsha)
+                            if not self.repo.refs.remove_if_equals(ref, oldsha):
+                                ref_status = b"failed to delete"
                         except all_exceptions:
                             ref_status = b"failed to delete"
                     else:
                         try:
-                            self.repo.refs.set_if_equals(ref, oldsha, sha)
+                            if not self.repo.refs.set_if_equals(ref, oldsha, sha):
+                                ref_status = b"failed to update ref"
                         except all_exceptions:
                             ref_status = b"failed to write"
                 except KeyError:
